@@ -1,0 +1,27 @@
+//go:build verif
+
+package tglib
+
+import (
+	"fmt"
+	"os"
+	"strconv"
+
+	"github.com/ishidawataru/sctp"
+)
+
+// ConnectToAmf (verif build): adopt an already connected socket inherited from the
+// parent process (fd number in STGUTG_VERIF_AMF_FD) instead of dialling SCTP, so that
+// the unmodified main() and procedures can talk to a reference AMF where kernel SCTP
+// is not available. If STGUTG_VERIF_CONNECT_LOG names a file, the four arguments
+// received are written to it.
+func ConnectToAmf(amfIP, stgIP string, amfPort, stgPort int) (*sctp.SCTPConn, error) {
+	fd, err := strconv.Atoi(os.Getenv("STGUTG_VERIF_AMF_FD"))
+	if err != nil {
+		return nil, fmt.Errorf("verif: STGUTG_VERIF_AMF_FD: %v", err)
+	}
+	if p := os.Getenv("STGUTG_VERIF_CONNECT_LOG"); p != "" {
+		_ = os.WriteFile(p, []byte(fmt.Sprintf("%q %q %d %d\n", amfIP, stgIP, amfPort, stgPort)), 0644)
+	}
+	return sctp.NewSCTPConn(fd, nil), nil
+}
